@@ -19,9 +19,9 @@ harness); nothing here re-implements C3.
 Slot values carry an identity (`Ident`) next to their value because
 `__param_inheritance` compares with `is`.  Not modelled (never specified by the
 harness, hold one and the same atom along every MRO, so they can neither be
-overridden nor influence validation): pickle_default_value, per_instance,
-allow_refs (and the explicit_no_refs bookkeeping), nested_refs, set_hook,
-compute_default_fn, is_instance; `name`, `owner`, `watchers` (in
+overridden nor influence validation): set_hook, compute_default_fn, is_instance;
+the explicit_no_refs bookkeeping that goes with `allow_refs` (it only matters
+when instances resolve references); `name`, `owner`, `watchers` (in
 `_non_validated_slots` or deleted from the search).  Dynamic (callable) defaults,
 numpy values and malformed bounds tuples are outside the model (`unsupported`).
 -/
@@ -163,7 +163,8 @@ def PType.sub : PType → PType → Bool
   | a, b => a == b
 
 inductive Slot where
-  | default | doc | precedence | constant | readonly | allowNone | label
+  | default | doc | precedence | constant | readonly | pickleDefault | allowNone | perInstance
+  | allowRefs | nestedRefs | label
   | bounds | softbounds | inclusiveBounds | step
   | regex | length | itemType | itemClass | objects | checkOnSet | names
   deriving DecidableEq, Repr
@@ -171,18 +172,21 @@ inductive Slot where
 /-- the modelled part of `_all_slots_`, in its order (`instantiate` is handled
 apart, as in the code, which deletes it from the search) -/
 def slotOrder : List Slot :=
-  [.default, .doc, .precedence, .constant, .readonly, .allowNone, .label,
+  [.default, .doc, .precedence, .constant, .readonly, .pickleDefault, .allowNone, .perInstance,
+   .allowRefs, .nestedRefs, .label,
    .bounds, .softbounds, .inclusiveBounds, .step, .regex, .length,
    .itemType, .itemClass, .objects, .checkOnSet, .names]
 
 def Slot.idx : Slot → Nat
-  | .default => 0 | .doc => 1 | .precedence => 2 | .constant => 3 | .readonly => 4 | .allowNone => 5
-  | .label => 6 | .bounds => 7 | .softbounds => 8 | .inclusiveBounds => 9 | .step => 10 | .regex => 11
-  | .length => 12 | .itemType => 13 | .itemClass => 14 | .objects => 15 | .checkOnSet => 16 | .names => 17
+  | .default => 0 | .doc => 1 | .precedence => 2 | .constant => 3 | .readonly => 4 | .pickleDefault => 5
+  | .allowNone => 6 | .perInstance => 7 | .allowRefs => 8 | .nestedRefs => 9 | .label => 10
+  | .bounds => 11 | .softbounds => 12 | .inclusiveBounds => 13 | .step => 14 | .regex => 15
+  | .length => 16 | .itemType => 17 | .itemClass => 18 | .objects => 19 | .checkOnSet => 20 | .names => 21
 
 /-- `slot in type(param)._all_slots_` (= `hasattr(param, slot)` for a slot name) -/
 def hasSlot : PType → Slot → Bool
   | _, .default | _, .doc | _, .precedence | _, .constant | _, .readonly | _, .allowNone | _, .label => true
+  | _, .pickleDefault | _, .perInstance | _, .allowRefs | _, .nestedRefs => true
   | .number, .bounds | .number, .softbounds | .number, .inclusiveBounds | .number, .step => true
   | .integer, .bounds | .integer, .softbounds | .integer, .inclusiveBounds | .integer, .step => true
   | .string, .regex => true
@@ -195,7 +199,7 @@ def slotsOf (T : PType) : List Slot := slotOrder.filter (hasSlot T)
 
 /-- src: Parameter._non_validated_slots (the modelled ones) -/
 def nonValidated : Slot → Bool
-  | .label | .doc | .precedence | .constant => true
+  | .label | .doc | .precedence | .constant | .pickleDefault => true
   | _ => false
 
 inductive SlotDefault where
@@ -225,6 +229,10 @@ def typeDefault : PType → Slot → SlotDefault
   | .selector, .allowNone => .static noneV
   | _, .allowNone => .static (boolV false)
   | _, .label => .static noneV
+  | _, .pickleDefault => .static (boolV true)
+  | _, .perInstance => .static (boolV true)
+  | _, .allowRefs => .static (boolV false)
+  | _, .nestedRefs => .static (boolV false)
   | .list, .bounds => .static tdListBounds
   | _, .bounds => .static noneV
   | _, .softbounds => .static noneV
@@ -236,7 +244,7 @@ def typeDefault : PType → Slot → SlotDefault
   | _, .itemClass => .static noneV
   | _, .objects => .computed
   | _, .checkOnSet => .computed
-  | _, .names => .missing
+  | _, .names => .computed
 
 /-- `_slot_defaults['instantiate']` -/
 def typeInstantiate : PType → Bool
@@ -414,8 +422,14 @@ def selectorObjectsDefault (stage op name : Nat) (f : Slots) : Slots :=
   | some _ => f
   | none => f.set .objects (some ⟨.fresh stage op name Slot.objects.idx, .list []⟩)
 
+/-- src: `names=lambda p: {}` in `_SignatureSelector._slot_defaults`: a fresh `{}` for an `Undefined` `names` -/
+def selectorNamesDefault (stage op name : Nat) (f : Slots) : Slots :=
+  match f .names with
+  | some _ => f
+  | none => f.set .names (some ⟨.fresh stage op name Slot.names.idx, .dict []⟩)
+
 /-- src: the callables of `_slot_defaults`, run in slot order on the partly filled Parameter:
-`_compute_length_of_default`, `_compute_selector_default`, `_compute_selector_checking_default`.
+`_compute_length_of_default`, `_compute_selector_default`, `_compute_selector_checking_default`, the `names` lambda.
 `stage/op/name` name the objects they create. -/
 def runCallables (T : PType) (stage op name : Nat) (f : Slots) : Except ErrKind Slots :=
   match T with
@@ -429,10 +443,10 @@ def runCallables (T : PType) (stage op name : Nat) (f : Slots) : Except ErrKind 
   | .selector =>
     let f1 := selectorObjectsDefault stage op name f
     match f1 .checkOnSet with
-    | some _ => .ok f1
+    | some _ => .ok (selectorNamesDefault stage op name f1)
     | none =>
       match (f1 .objects).bind (·.v.len) with
-      | some n => .ok (f1.set .checkOnSet (some (boolV (n != 0))))
+      | some n => .ok (selectorNamesDefault stage op name (f1.set .checkOnSet (some (boolV (n != 0)))))
       | none => .error .typeError
   | _ => .ok f
 
@@ -501,6 +515,10 @@ def baseInit (T : PType) (dflt : Option Val) (args : Slots) (inst : Option Bool)
     | .readonly => args .readonly
     | .allowNone => allowNone
     | .label => args .label
+    | .pickleDefault => args .pickleDefault
+    | .perInstance => args .perInstance
+    | .allowRefs => args .allowRefs
+    | .nestedRefs => args .nestedRefs
     | _ => none
   { ptype := T, slots := slots, instantiate := instantiate }
 
@@ -528,7 +546,7 @@ def selectorAutodefault (a : Slots) : Except ErrKind (Option Val) :=
   | some _ => .error .unsupported
 
 /-- src: Selector.__init__ up to (and including) `super().__init__` and the `allow_None` fix-up:
-the `objects` setter splits a dict into `names` and `_objects`; `names` is always set -/
+the `objects` setter splits a dict into `names` and `_objects`; without `objects`, `names` stays `Undefined` -/
 def selectorRaw (op name : Nat) (a : Slots) (inst : Option Bool) (autodefault : Option Val) : Param :=
   let dflt := match a .default with | some v => some v | none => autodefault
   let objects : Option Val := match a .objects with
@@ -536,7 +554,8 @@ def selectorRaw (op name : Nat) (a : Slots) (inst : Option Bool) (autodefault : 
     | o => o
   let names : Option Val := match a .objects with
     | some ⟨i, .dict kvs⟩ => some ⟨i, .dict kvs⟩
-    | _ => some ⟨.fresh 0 op name Slot.names.idx, .dict []⟩
+    | some _ => some ⟨.fresh 0 op name Slot.names.idx, .dict []⟩
+    | none => none                                   -- `Undefined`: inherited together with `_objects`
   let b := baseInit .selector dflt a inst
   let allowNone := match a .allowNone with | some v => some v | none => staticDefaultV .selector .allowNone
   { b with slots := (((b.slots.set .objects objects).set .names names).set .checkOnSet (a .checkOnSet)).set .allowNone allowNone }
